@@ -56,6 +56,12 @@ POOL = [
     ("3 & 1", ("amp",)),
     ("'<b>' + str(A)", ("lt", "gt")),
     ("'a&b'", ("amp",)),
+    # ampersands that are written as such (\2) and do not start a character
+    # entity (no terminating semicolon): they reach the evaluator unchanged
+    ("'?a=1\2copy=2\2reg_id=3'", ("rawamp",)),
+    ("'x\2para=1\2sect=2\2times'", ("rawamp",)),
+    ("'R\2D \2amp \2lt \2not x'", ("rawamp",)),
+    ("7 \2 3", ("rawamp",)),
     ("{A} and 'set'", ("brace",)),
     ("'x' \\\n + 'y'", ("newline",)),
     ("[\n 1,\n 2][1]", ("newline",)),
@@ -109,7 +115,8 @@ def exprs(names=("a", "b"), exclude=()):
 
 def evaluate(src, env):
     """Reference value of the expression: Python itself."""
-    return eval(compile(src.strip(), "<expr>", "eval"), {}, dict(env))
+    return eval(compile(src.strip().replace("\2", "&"), "<expr>", "eval"),
+                {}, dict(env))
 
 
 def encode_for_markup(src, attr_quote=None):
